@@ -7,6 +7,8 @@ import AnsiSpec
   `import Lean` is needed only for the simproc `strLitToList` below (see its doc-string).
 -/
 
+namespace ScrubL
+
 open Lean Meta Simp in
 /-- Rewrite `"lit".toList` to the explicit character list.  The proof term is
     `String.toList_ofList` (the kernel expands a string literal to `String.ofList [...]`), so the
@@ -21,10 +23,9 @@ simproc strLitToList (String.toList _) := fun e => do
   return .done { expr := listExpr, proof? := some pf }
 
 /-- decide a closed Boolean fact about `Gen.formatTable` in the kernel (no extra axioms) -/
-macro "table_decide" : tactic =>
+macro "scrubl_table_decide" : tactic =>
   `(tactic| (simp only [Gen.formatTable, strLitToList]; decide +kernel))
 
-namespace ScrubL
 
 /-! ## a decidable strict order on strings (lexicographic on code points) -/
 
@@ -99,9 +100,9 @@ def isNameChar (c : Char) : Bool := ('A' ≤ c && c ≤ 'Z') || ('0' ≤ c && c 
 def namesOk (l : List (Str × List Str)) : Bool := l.all (fun r => !r.1.isEmpty && r.1.all isNameChar)
 
 set_option maxRecDepth 100000 in
-theorem table_asc : ascKeys Gen.formatTable = true := by table_decide
+theorem table_asc : ascKeys Gen.formatTable = true := by scrubl_table_decide
 set_option maxRecDepth 100000 in
-theorem table_names : namesOk Gen.formatTable = true := by table_decide
+theorem table_names : namesOk Gen.formatTable = true := by scrubl_table_decide
 
 open Scrub
 
@@ -290,5 +291,978 @@ theorem scrub_list_err {pre post : List SArg} {a : SArg} {e : PyErr} {p : List S
     (hp : scrubItems pre = .ok p) (ha : scrubItem a = .error e) :
     scrub (.list (pre ++ [a] ++ post)) = .error e := by
   simp [scrub, scrubItems_append, scrubItems, hp, ha, bind, Except.bind]
+
+open SettingTxt
+
+/-! ## `str(n)` -/
+
+def digitChar (d : Nat) : Char := Char.ofNat ('0'.toNat + d)
+
+/-- reference definition of the decimal digits (most significant first) -/
+def digitsOf (n : Nat) : Str :=
+  if n < 10 then [digitChar n] else digitsOf (n / 10) ++ [digitChar (n % 10)]
+termination_by n
+decreasing_by omega
+
+theorem natDigitsAux_eq : ∀ fuel n acc, n < fuel → Py.natDigitsAux fuel n acc = digitsOf n ++ acc
+  | 0, _, _, h => by omega
+  | fuel + 1, n, acc, h => by
+    rw [Py.natDigitsAux, digitsOf]
+    by_cases hn : n < 10
+    · have h0 : n / 10 = 0 := by omega
+      have h1 : n % 10 = n := by omega
+      simp [h0, h1, hn, digitChar]
+    · have h0 : ¬ n / 10 = 0 := by omega
+      simp only [h0, if_false, hn]
+      rw [natDigitsAux_eq fuel (n / 10) _ (by omega)]
+      simp [digitChar]
+
+theorem natStr_eq (n : Nat) : Py.natStr n = digitsOf n := by
+  simp [Py.natStr, natDigitsAux_eq (n + 1) n [] (by omega)]
+
+theorem digitChar_toNat {d : Nat} (h : d < 10) : (digitChar d).toNat = 48 + d := by
+  have : ∀ d < 10, (digitChar d).toNat = 48 + d := by decide
+  exact this d h
+
+theorem digitChar_isDigit {d : Nat} (h : d < 10) : Py.isDigit (digitChar d) = true := by
+  have : ∀ d < 10, Py.isDigit (digitChar d) = true := by decide
+  exact this d h
+
+theorem digitsOf_ne_nil (n : Nat) : digitsOf n ≠ [] := by
+  rw [digitsOf]; split <;> simp
+
+theorem digitsOf_all (n : Nat) : ∀ c ∈ digitsOf n, Py.isDigit c = true := by
+  induction n using Nat.strongRecOn with
+  | _ n ih =>
+    rw [digitsOf]
+    split
+    · intro c hc; simp at hc; subst hc; exact digitChar_isDigit (by omega)
+    · intro c hc
+      rcases List.mem_append.1 hc with h | h
+      · exact ih (n / 10) (by omega) c h
+      · simp at h; subst h; exact digitChar_isDigit (Nat.mod_lt _ (by omega))
+
+theorem digitsVal_append (a : Str) (c : Char) :
+    Py.digitsVal (a ++ [c]) = 10 * Py.digitsVal a + (c.toNat - '0'.toNat) := by
+  simp [Py.digitsVal, List.foldl_append]
+
+theorem digitsVal_digitsOf (n : Nat) : Py.digitsVal (digitsOf n) = n := by
+  induction n using Nat.strongRecOn with
+  | _ n ih =>
+    rw [digitsOf]
+    split
+    · rename_i h
+      simp [Py.digitsVal, digitChar_toNat h]
+    · rw [digitsVal_append, ih (n / 10) (by omega), digitChar_toNat (Nat.mod_lt _ (by omega))]
+      have : '0'.toNat = 48 := rfl
+      omega
+
+theorem natStr_ne_nil (n : Nat) : Py.natStr n ≠ [] := natStr_eq n ▸ digitsOf_ne_nil n
+theorem natStr_all (n : Nat) : ∀ c ∈ Py.natStr n, Py.isDigit c = true := natStr_eq n ▸ digitsOf_all n
+theorem digitsVal_natStr (n : Nat) : Py.digitsVal (Py.natStr n) = n := natStr_eq n ▸ digitsVal_digitsOf n
+
+theorem isdigit_natStr (n : Nat) : Py.isdigit (Py.natStr n) = true := by
+  have h1 := natStr_ne_nil n
+  have h2 := natStr_all n
+  simp only [Py.isdigit, Bool.and_eq_true, Bool.not_eq_true', List.all_eq_true]
+  exact ⟨by cases h : Py.natStr n <;> simp_all, h2⟩
+
+/-- facts about a decimal digit character -/
+theorem isDigit_iff (c : Char) : Py.isDigit c = true ↔ 48 ≤ c.toNat ∧ c.toNat ≤ 57 := by
+  simp [Py.isDigit, char_le_iff]
+
+theorem isDigit_not_space {c : Char} (h : Py.isDigit c = true) : Py.isSpace c = false := by
+  rw [isDigit_iff] at h
+  have : ¬ c = ' ' := by rw [char_eq_iff]; show ¬ c.toNat = 32; omega
+  simp [Py.isSpace, this]; omega
+
+theorem isDigit_isHex {c : Char} (h : Py.isDigit c = true) : isHex c = true := by simp [isHex, h]
+
+theorem isDigit_ne {c d : Char} (h : Py.isDigit c = true) (hd : Py.isDigit d = false) : c ≠ d := by
+  intro e; subst e; simp [h] at hd
+
+/-! ## `strip` -/
+
+theorem strip_id {s : Str} (h1 : ∀ c, s.head? = some c → Py.isSpace c = false)
+    (h2 : ∀ c, s.getLast? = some c → Py.isSpace c = false) : Py.strip s = s := by
+  unfold Py.strip Py.rstripBy
+  have e1 : s.dropWhile Py.isSpace = s := by
+    cases s with
+    | nil => rfl
+    | cons c r => simp [List.dropWhile, h1 c rfl]
+  rw [e1]
+  have e2 : s.reverse.dropWhile Py.isSpace = s.reverse := by
+    cases hr : s.reverse with
+    | nil => rfl
+    | cons c r =>
+      have : s.getLast? = some c := by rw [List.getLast?_eq_head?_reverse, hr]; rfl
+      simp [List.dropWhile, h2 c this]
+  rw [e2, List.reverse_reverse]
+
+theorem strip_digits {s : Str} (h : ∀ c ∈ s, Py.isDigit c = true) : Py.strip s = s := by
+  apply strip_id
+  · intro c hc; exact isDigit_not_space (h c (List.mem_of_mem_head? hc))
+  · intro c hc; exact isDigit_not_space (h c (List.mem_of_getLast? hc))
+
+/-- `parsable` after the `valid` test, as a function of `to_list()` -/
+def parsableCodes (codes : List Code) : Bool :=
+  match codes with
+  | [] => false
+  | c0 :: _ =>
+    if c0 == Code.int 0 then false
+    else if !(codes.all (fun c => match c with | .int i => 0 ≤ i ∧ i ≤ 255 | .str _ => false)) then false
+    else
+      match c0 with
+      | .str _ => false
+      | .int i0 =>
+        if (ansiParam i0).isNone then false
+        else
+          match parsableFnLoop codes Gen.ctrlFns false with
+          | (some b, _) => b
+          | (none, true) => false
+          | (none, false) => codes.length == 1
+
+theorem parsable_eq (t : Str) : parsable t = (valid t && parsableCodes (toList t)) := by
+  unfold parsable parsableCodes
+  cases valid t <;> rfl
+
+def natCodes (l : List Nat) : List Code := l.map (fun (n : Nat) => Code.int (n : Int))
+
+/-- the grammar on the list of values -/
+def groupVals (vals : List Nat) : Prop :=
+  (∀ v ∈ vals, v ≤ 255) ∧
+  ∃ first rest, vals = first :: rest ∧ first ≠ 0 ∧ Term.specEffect first ≠ none ∧
+    (if first = 38 ∨ first = 48 ∨ first = 58 then
+       (∃ n, rest = [5, n]) ∨ (∃ r g b, rest = [2, r, g, b])
+     else rest = [])
+
+theorem ctrlFns_eq : Gen.ctrlFns = [([38,5],1), ([38,2],3), ([48,5],1), ([48,2],3), ([58,5],1), ([58,2],3)] := by
+  decide
+
+theorem ansiParam_spec_check :
+    (List.range 256).all (fun c => (ansiParam (c : Int)).isNone == (Term.specEffect c).isNone) = true := by
+  decide +kernel
+
+theorem ansiParam_spec {c : Nat} (h : c ≤ 255) : (ansiParam (c : Int)).isNone = (Term.specEffect c).isNone := by
+  have := ansiParam_spec_check
+  rw [List.all_eq_true] at this
+  have := this c (by simp; omega)
+  simpa using this
+
+theorem codeInt_beq (i j : Int) : (Code.int i == Code.int j) = decide (i = j) := by
+  by_cases h : i = j
+  · subst h; simp
+  · have : Code.int i ≠ Code.int j := by
+      intro e; injection e with e; exact h e
+    simp [h, this]
+
+/-- the verdict of the function loop and the final length test of `parsable` -/
+def loopVerdict (codes : List Code) : Bool :=
+  match parsableFnLoop codes Gen.ctrlFns false with
+  | (some b, _) => b
+  | (none, true) => false
+  | (none, false) => codes.length == 1
+
+theorem cast_eq_2 (x : Nat) : ((x : Int) = 2) ↔ x = 2 := by omega
+theorem cast_eq_5 (x : Nat) : ((x : Int) = 5) ↔ x = 5 := by omega
+theorem cast_eq_38 (x : Nat) : ((x : Int) = 38) ↔ x = 38 := by omega
+theorem cast_eq_48 (x : Nat) : ((x : Int) = 48) ↔ x = 48 := by omega
+theorem cast_eq_58 (x : Nat) : ((x : Int) = 58) ↔ x = 58 := by omega
+
+set_option linter.unusedSimpArgs false
+
+theorem startsWithFn1_nat (m : Nat) (rest : List Nat) :
+    startsWithFn [m] (natCodes rest) = match rest with | [] => false | b :: _ => decide (b = m) := by
+  cases rest with
+  | nil => rfl
+  | cons b r => simp [startsWithFn, natCodes, codeInt_beq]; omega
+
+theorem loopVerdict_ext (a : Nat) (ha : a = 38 ∨ a = 48 ∨ a = 58) (rest : List Nat) :
+    loopVerdict (natCodes (a :: rest)) = true ↔ (∃ n, rest = [5, n]) ∨ (∃ r g b, rest = [2, r, g, b]) := by
+  unfold loopVerdict
+  rw [ctrlFns_eq]
+  rcases rest with _ | ⟨b, rest⟩
+  · rcases ha with rfl | rfl | rfl <;>
+      simp [parsableFnLoop, startsWithFn, natCodes, codeInt_beq, cast_eq_2, cast_eq_5, cast_eq_38, cast_eq_48, cast_eq_58]
+  · by_cases h5 : b = 5
+    · subst h5
+      rcases ha with rfl | rfl | rfl <;>
+      rcases rest with _ | ⟨c, _ | ⟨d, rest⟩⟩ <;>
+        simp [parsableFnLoop, startsWithFn, natCodes, codeInt_beq, cast_eq_2, cast_eq_5, cast_eq_38, cast_eq_48, cast_eq_58]
+    · by_cases h2 : b = 2
+      · subst h2
+        rcases ha with rfl | rfl | rfl <;>
+        rcases rest with _ | ⟨c, _ | ⟨d, _ | ⟨e, _ | ⟨f, rest⟩⟩⟩⟩ <;>
+          simp [parsableFnLoop, startsWithFn, natCodes, codeInt_beq, cast_eq_2, cast_eq_5, cast_eq_38, cast_eq_48, cast_eq_58]
+      · rcases ha with rfl | rfl | rfl <;>
+          simp [parsableFnLoop, startsWithFn, natCodes, codeInt_beq, cast_eq_2, cast_eq_5, cast_eq_38, cast_eq_48, cast_eq_58, h5, h2]
+
+theorem loopVerdict_plain (a : Nat) (ha : ¬ (a = 38 ∨ a = 48 ∨ a = 58)) (rest : List Nat) :
+    loopVerdict (natCodes (a :: rest)) = true ↔ rest = [] := by
+  unfold loopVerdict
+  rw [ctrlFns_eq]
+  have h1 : ¬ a = 38 := fun h => ha (Or.inl h)
+  have h2 : ¬ a = 48 := fun h => ha (Or.inr (Or.inl h))
+  have h3 : ¬ a = 58 := fun h => ha (Or.inr (Or.inr h))
+  simp [parsableFnLoop, startsWithFn, natCodes, codeInt_beq, cast_eq_2, cast_eq_5, cast_eq_38, cast_eq_48, cast_eq_58, h1, h2, h3]
+
+theorem loopVerdict_nat (a : Nat) (rest : List Nat) : loopVerdict (natCodes (a :: rest)) = true ↔
+    (if a = 38 ∨ a = 48 ∨ a = 58 then (∃ n, rest = [5, n]) ∨ (∃ r g b, rest = [2, r, g, b])
+     else rest = []) := by
+  split
+  · rename_i h; exact loopVerdict_ext a h rest
+  · rename_i h; exact loopVerdict_plain a h rest
+
+theorem parsableCodes_cons (a : Nat) (rest : List Nat) :
+    parsableCodes (natCodes (a :: rest)) =
+      (!decide (a = 0) && (a :: rest).all (fun v => decide (v ≤ 255)) && !(ansiParam (a : Int)).isNone &&
+        loopVerdict (natCodes (a :: rest))) := by
+  have hall : (natCodes (a :: rest)).all (fun c => match c with | .int i => 0 ≤ i ∧ i ≤ 255 | .str _ => false)
+      = (a :: rest).all (fun v => decide (v ≤ 255)) := by
+    simp only [natCodes, List.all_map]
+    congr 1
+    funext v
+    simp only [Function.comp]
+    by_cases h : v ≤ 255
+    · simp [h]; omega
+    · simp [h]; omega
+  have hz : (Code.int (a : Int) == Code.int 0) = decide (a = 0) := by
+    rw [codeInt_beq]; by_cases h : a = 0 <;> simp [h]
+  unfold parsableCodes loopVerdict
+  simp only [natCodes, List.map_cons] at hall ⊢
+  rw [hz, hall]
+  by_cases h0 : a = 0
+  · simp [h0]
+  · cases hA : List.all (a :: rest) (fun v => decide (v ≤ 255))
+    · simp [h0]
+    · cases hP : (ansiParam (a : Int)).isNone
+      · simp [h0]
+      · simp [h0]
+
+theorem parsableCodes_nat (vals : List Nat) : parsableCodes (natCodes vals) = true ↔ groupVals vals := by
+  cases vals with
+  | nil => simp [parsableCodes, natCodes, groupVals]
+  | cons a rest =>
+    rw [parsableCodes_cons]
+    simp only [Bool.and_eq_true, Bool.not_eq_true', decide_eq_false_iff_not, List.all_eq_true,
+      decide_eq_true_eq, loopVerdict_nat, groupVals]
+    constructor
+    · rintro ⟨⟨⟨h0, hall⟩, hp⟩, hl⟩
+      have ha : a ≤ 255 := hall a (List.mem_cons_self ..)
+      refine ⟨hall, a, rest, rfl, h0, ?_, hl⟩
+      rw [ansiParam_spec ha] at hp
+      intro hn; rw [hn] at hp; simp at hp
+    · rintro ⟨hall, f, r, he, h0, hs, hl⟩
+      injection he with e1 e2
+      subst e1; subst e2
+      have ha : a ≤ 255 := hall a (List.mem_cons_self ..)
+      refine ⟨⟨⟨h0, hall⟩, ?_⟩, hl⟩
+      rw [ansiParam_spec ha]
+      cases h : Term.specEffect a with
+      | none => exact absurd h hs
+      | some _ => rfl
+/-! ## the spec's tokenizer functions coincide with the model's primitives -/
+
+theorem splitSemi_eq : ∀ s : Str, Term.splitSemi s = Py.splitOnChar ';' s
+  | [] => rfl
+  | c :: rest => by
+    simp only [Term.splitSemi, Py.splitOnChar, splitSemi_eq rest]
+    split
+    · rfl
+    · cases Py.splitOnChar ';' rest <;> rfl
+
+theorem isWs_eq : Term.isWs = Py.isSpace := rfl
+theorem termIsDigit_eq : Term.isDigit = Py.isDigit := rfl
+theorem trim_eq (s : Str) : Term.trim s = Py.strip s := rfl
+theorem decimal_eq (s : Str) : Term.decimal s = Py.digitsVal s := rfl
+
+/-! ## membership through split / strip -/
+
+theorem mem_split (sep : Char) : ∀ (s : Str) (c : Char), c ∈ s → c = sep ∨ ∃ it ∈ Py.splitOnChar sep s, c ∈ it
+  | [], c, h => by simp at h
+  | d :: rest, c, h => by
+    simp only [Py.splitOnChar]
+    by_cases hd : d = sep
+    · subst hd
+      rcases List.mem_cons.1 h with rfl | h
+      · exact Or.inl rfl
+      · rcases mem_split d rest c h with h | ⟨it, hit, hc⟩
+        · exact Or.inl h
+        · exact Or.inr ⟨it, by simp [hit], hc⟩
+    · have hd' : (d == sep) = false := by simp [hd]
+      rw [hd']
+      simp only [Bool.false_eq_true, if_false]
+      cases hs : Py.splitOnChar sep rest with
+      | nil => exact absurd hs (splitOnChar_ne_nil sep rest)
+      | cons hh tt =>
+        rcases List.mem_cons.1 h with rfl | h
+        · exact Or.inr ⟨c :: hh, by simp, by simp⟩
+        · rcases mem_split sep rest c h with h | ⟨it, hit, hc⟩
+          · exact Or.inl h
+          · rw [hs] at hit
+            rcases List.mem_cons.1 hit with rfl | hit
+            · exact Or.inr ⟨d :: it, by simp, by simp [hc]⟩
+            · exact Or.inr ⟨it, by simp [hit], hc⟩
+
+theorem mem_dropWhile_or {p : Char → Bool} : ∀ (s : Str) (c : Char), c ∈ s → p c = true ∨ c ∈ s.dropWhile p
+  | [], c, h => by simp at h
+  | d :: rest, c, h => by
+    by_cases hd : p d = true
+    · rw [List.dropWhile_cons_of_pos hd]
+      rcases List.mem_cons.1 h with rfl | h
+      · exact Or.inl hd
+      · exact mem_dropWhile_or rest c h
+    · rw [List.dropWhile_cons_of_neg hd]; exact Or.inr h
+
+theorem mem_strip (s : Str) (c : Char) (h : c ∈ s) : Py.isSpace c = true ∨ c ∈ Py.strip s := by
+  unfold Py.strip Py.rstripBy
+  rcases mem_dropWhile_or (p := Py.isSpace) s c h with h | h
+  · exact Or.inl h
+  · rcases mem_dropWhile_or (p := Py.isSpace) _ c (List.mem_reverse.2 h) with h | h
+    · exact Or.inl h
+    · exact Or.inr (List.mem_reverse.2 h)
+
+/-! ## `to_list()` -/
+
+def items (t : Str) : List Str := (Py.splitOnChar ';' t).map Py.strip
+
+theorem toList_eq (t : Str) :
+    toList t = (items t).map (fun v => if Py.isdigit v then Code.int (Py.digitsVal v) else Code.str v) := by
+  simp [toList, items, List.map_map, Function.comp_def]
+
+theorem toList_digits {t : Str} (h : ∀ v ∈ items t, Py.isdigit v = true) :
+    toList t = natCodes ((items t).map Py.digitsVal) := by
+  rw [toList_eq, natCodes, List.map_map]
+  apply List.map_congr_left
+  intro v hv
+  simp [h v hv]
+
+theorem parsableCodes_all_int {codes : List Code} (h : parsableCodes codes = true) :
+    ∀ c ∈ codes, ∃ i, c = Code.int i := by
+  unfold parsableCodes at h
+  split at h
+  · cases h
+  · split at h
+    · cases h
+    · split at h
+      · cases h
+      · rename_i hall
+        simp only [Bool.not_eq_true', Bool.not_eq_false] at hall
+        rw [List.all_eq_true] at hall
+        intro c hc
+        have := hall c hc
+        cases c with
+        | int i => exact ⟨i, rfl⟩
+        | str s => simp at this
+
+theorem items_digits_of_parsableCodes {t : Str} (h : parsableCodes (toList t) = true) :
+    ∀ v ∈ items t, Py.isdigit v = true := by
+  intro v hv
+  have := parsableCodes_all_int h (if Py.isdigit v then Code.int (Py.digitsVal v) else Code.str v)
+    (by rw [toList_eq]; exact List.mem_map.2 ⟨v, hv, rfl⟩)
+  cases hd : Py.isdigit v with
+  | true => rfl
+  | false => rw [hd] at this; obtain ⟨i, hi⟩ := this; simp at hi
+
+theorem isdigit_iff (v : Str) : Py.isdigit v = true ↔ v ≠ [] ∧ ∀ c ∈ v, Py.isDigit c = true := by
+  cases v <;> simp [Py.isdigit]
+
+theorem not_isTerm_of {c : Char} (h : c = ';' ∨ Py.isSpace c = true ∨ Py.isDigit c = true) : isTerm c = false := by
+  have e : Gen.termLo = 64 := rfl
+  simp only [isTerm, e]
+  rcases h with rfl | h | h
+  · decide
+  · simp only [Py.isSpace, Bool.or_eq_true, beq_iff_eq, Bool.and_eq_true, decide_eq_true_eq, char_eq_iff] at h
+    have : ' '.toNat = 32 := rfl
+    have : ¬ 64 ≤ c.toNat := by omega
+    simp [this]
+  · rw [isDigit_iff] at h
+    have : ¬ 64 ≤ c.toNat := by omega
+    simp [this]
+
+theorem valid_of_items_digits {t : Str} (h : ∀ v ∈ items t, Py.isdigit v = true) : valid t = true := by
+  simp only [valid, List.all_eq_true, Bool.not_eq_true']
+  intro c hc
+  apply not_isTerm_of
+  rcases mem_split ';' t c hc with h1 | ⟨it, hit, hcit⟩
+  · exact Or.inl h1
+  · rcases mem_strip it c hcit with h2 | h2
+    · exact Or.inr (Or.inl h2)
+    · have := h (Py.strip it) (List.mem_map.2 ⟨it, hit, rfl⟩)
+      exact Or.inr (Or.inr (((isdigit_iff _).1 this).2 c h2))
+
+/-- `parsable` in terms of the items and their values -/
+theorem parsable_iff_items (t : Str) : parsable t = true ↔
+    (∀ v ∈ items t, Py.isdigit v = true) ∧ groupVals ((items t).map Py.digitsVal) := by
+  rw [parsable_eq, Bool.and_eq_true]
+  constructor
+  · rintro ⟨_, hp⟩
+    have hd := items_digits_of_parsableCodes hp
+    rw [toList_digits hd, parsableCodes_nat] at hp
+    exact ⟨hd, hp⟩
+  · rintro ⟨hd, hg⟩
+    refine ⟨valid_of_items_digits hd, ?_⟩
+    rw [toList_digits hd, parsableCodes_nat]; exact hg
+
+/-! ## `';'.join(str(n) …)` and back -/
+
+theorem split_joinSep : ∀ (xs : List Str), xs ≠ [] → (∀ x ∈ xs, ';' ∉ x) →
+    Py.splitOnChar ';' (joinSep semi xs) = xs
+  | [], h, _ => absurd rfl h
+  | [a], _, h => by simpa [joinSep] using splitOnChar_no_sep ';' a (h a (by simp))
+  | a :: b :: rest, _, h => by
+    have ha : ';' ∉ a := h a (by simp)
+    have := split_joinSep (b :: rest) (by simp) (fun x hx => h x (List.mem_cons_of_mem _ hx))
+    simp only [joinSep, semi, List.append_assoc, List.singleton_append]
+    rw [splitOnChar_append ';' a _ ha]
+    exact congrArg _ this
+
+theorem semi_not_mem_natStr (n : Nat) : ';' ∉ Py.natStr n := by
+  intro h
+  have := natStr_all n _ h
+  simp [Py.isDigit] at this
+
+theorem items_joinNats {l : List Nat} (h : l ≠ []) : items (joinNats l) = l.map Py.natStr := by
+  unfold items joinNats
+  rw [split_joinSep _ (by simpa using h) (by
+    intro x hx; obtain ⟨n, _, rfl⟩ := List.mem_map.1 hx; exact semi_not_mem_natStr n)]
+  rw [List.map_map]
+  apply List.map_congr_left
+  intro n _
+  exact strip_digits (natStr_all n)
+
+theorem parsable_joinNats {l : List Nat} (h : l ≠ []) : parsable (joinNats l) = true ↔ groupVals l := by
+  rw [parsable_iff_items, items_joinNats h]
+  have e : (l.map Py.natStr).map Py.digitsVal = l := by
+    rw [List.map_map]
+    conv => rhs; rw [← List.map_id l]
+    apply List.map_congr_left
+    intro n _; exact digitsVal_natStr n
+  rw [e]
+  constructor
+  · exact fun h => h.2
+  · intro hg
+    refine ⟨?_, hg⟩
+    intro v hv
+    obtain ⟨n, _, rfl⟩ := List.mem_map.1 hv
+    exact isdigit_natStr n
+
+theorem toList_joinNats {l : List Nat} (h : l ≠ []) : toList (joinNats l) = natCodes l := by
+  have hd : ∀ v ∈ items (joinNats l), Py.isdigit v = true := by
+    rw [items_joinNats h]; intro v hv
+    obtain ⟨n, _, rfl⟩ := List.mem_map.1 hv
+    exact isdigit_natStr n
+  rw [toList_digits hd, items_joinNats h, List.map_map]
+  congr 1
+  conv => rhs; rw [← List.map_id l]
+  apply List.map_congr_left
+  intro n _; exact digitsVal_natStr n
+
+theorem natStr_eq_joinNats (n : Nat) : Py.natStr n = joinNats [n] := rfl
+
+/-! ## the regular-expression matcher: equations and deterministic-run lemmas -/
+
+open Re
+
+theorem m_seq {α} (a b : Re) (s : Str) (caps : Caps) (k : Str → Caps → Option α) :
+    m (seq a b) s caps k = m a s caps (fun rest caps' => m b rest caps' k) := by rw [m]
+theorem m_cls_cons {α} (p : Char → Bool) (c : Char) (rest : Str) (caps : Caps) (k : Str → Caps → Option α) :
+    m (cls p) (c :: rest) caps k = if p c then k rest caps else none := by rw [m]
+theorem m_cls_nil {α} (p : Char → Bool) (caps : Caps) (k : Str → Caps → Option α) :
+    m (cls p) [] caps k = none := by rw [m]
+theorem m_eps {α} (s : Str) (caps : Caps) (k : Str → Caps → Option α) : m eps s caps k = k s caps := by rw [m]
+theorem m_cap {α} (n : Nat) (r : Re) (s : Str) (caps : Caps) (k : Str → Caps → Option α) :
+    m (cap n r) s caps k =
+      m r s caps (fun rest caps' => k rest ((n, s.take (s.length - rest.length)) :: caps'.filter (·.1 != n))) := by
+  rw [m]
+theorem m_opt {α} (r : Re) (s : Str) (caps : Caps) (k : Str → Caps → Option α) :
+    m (opt r) s caps k = (m r s caps k).or (k s caps) := by
+  rw [m]; cases m r s caps k <;> rfl
+theorem m_alt {α} (a b : Re) (s : Str) (caps : Caps) (k : Str → Caps → Option α) :
+    m (alt a b) s caps k = (m a s caps k).or (m b s caps k) := by
+  rw [m]; cases m a s caps k <;> rfl
+theorem m_eos {α} (s : Str) (caps : Caps) (k : Str → Caps → Option α) :
+    m eos s caps k = if s.isEmpty ∨ s == ['\n'] then k s caps else none := by rw [m]
+theorem m_star {α} (p : Char → Bool) (s : Str) (caps : Caps) (k : Str → Caps → Option α) :
+    m (star p) s caps k = m.go s caps k (s.takeWhile p).length := by rw [m]
+
+theorem go_zero {α} (s : Str) (caps : Caps) (k : Str → Caps → Option α) : m.go s caps k 0 = k s caps := by
+  rw [m.go]
+theorem go_succ {α} (s : Str) (caps : Caps) (k : Str → Caps → Option α) (n : Nat) :
+    m.go s caps k (n + 1) = (k (s.drop (n + 1)) caps).or (m.go s caps k n) := by
+  rw [m.go]; cases k (s.drop (n + 1)) caps <;> rfl
+
+
+theorem go_exact {α} (s : Str) (caps : Caps) (k : Str → Caps → Option α) :
+    ∀ n, (∀ j, j < n → k (s.drop j) caps = none) → m.go s caps k n = k (s.drop n) caps
+  | 0, _ => by rw [go_zero]; rfl
+  | n + 1, h => by
+    rw [go_succ]
+    cases hk : k (s.drop (n + 1)) caps with
+    | some a => rfl
+    | none =>
+      rw [Option.none_or, go_exact s caps k n (fun j hj => h j (by omega))]
+      exact h n (by omega)
+
+/-- a greedy `[..]*` whose shorter alternatives all fail is deterministic -/
+theorem m_star_exact {α} (p : Char → Bool) (s : Str) (caps : Caps) (k : Str → Caps → Option α)
+    (h : ∀ j, j < (s.takeWhile p).length → k (s.drop j) caps = none) :
+    m (star p) s caps k = k (s.drop (s.takeWhile p).length) caps := by
+  rw [m_star, go_exact s caps k _ h]
+
+theorem m_star_skip {α} (p : Char → Bool) (s : Str) (caps : Caps) (k : Str → Caps → Option α)
+    (h : ∀ c, s.head? = some c → p c = false) : m (star p) s caps k = k s caps := by
+  have : s.takeWhile p = [] := by
+    cases s with
+    | nil => rfl
+    | cons c r => simp [List.takeWhile, h c rfl]
+  rw [m_star, this]; exact go_zero ..
+
+theorem m_lit_append {α} : ∀ (p s : Str) (caps : Caps) (k : Str → Caps → Option α),
+    m (lit p) (p ++ s) caps k = k s caps
+  | [], s, caps, k => by simp [lit, m_eps]
+  | c :: p, s, caps, k => by
+    simp only [lit, List.cons_append, m_seq, m_cls_cons, beq_self_eq_true, if_true]
+    exact m_lit_append p s caps k
+
+theorem m_lit_none {α} : ∀ (p s : Str) (caps : Caps) (k : Str → Caps → Option α),
+    Py.startsWith s p = false → m (lit p) s caps k = none
+  | [], s, _, _, h => by cases s <;> simp [Py.startsWith] at h
+  | c :: p, [], caps, k, _ => by simp [lit, m_seq, m_cls_nil]
+  | c :: p, d :: s, caps, k, h => by
+    simp only [Py.startsWith, Bool.and_eq_false_iff] at h
+    simp only [lit, m_seq, m_cls_cons]
+    by_cases hdc : d = c
+    · subst hdc
+      simp only [beq_self_eq_true, if_true]
+      rcases h with h | h
+      · simp at h
+      · exact m_lit_none p s caps k h
+    · simp [hdc]
+
+theorem m_opt_cls_skip {α} (p : Char → Bool) (s : Str) (caps : Caps) (k : Str → Caps → Option α)
+    (h : ∀ c, s.head? = some c → p c = false) : m (opt (cls p)) s caps k = k s caps := by
+  rw [m_opt]
+  cases s with
+  | nil => rw [m_cls_nil]; rfl
+  | cons c r => rw [m_cls_cons, h c rfl]; rfl
+
+
+theorem takeWhile_append_run (p : Char → Bool) : ∀ (run rest : Str), (∀ c ∈ run, p c = true) →
+    (∀ c, rest.head? = some c → p c = false) → (run ++ rest).takeWhile p = run
+  | [], rest, _, h2 => by
+    cases rest with
+    | nil => rfl
+    | cons c r => simp [h2 c rfl]
+  | d :: run, rest, h1, h2 => by
+    simp only [List.cons_append, List.takeWhile, h1 d (by simp)]
+    rw [takeWhile_append_run p run rest (fun c hc => h1 c (List.mem_cons_of_mem _ hc)) h2]
+
+/-- `([..]+)` as capture `b` on a run `ds` followed by a non-class character, when the
+    continuation cannot start with a class character: deterministic, captures `ds` -/
+theorem m_plus_cap_exact {α} (b : Nat) (p : Char → Bool) (ds rest : Str) (caps : Caps)
+    (k : Str → Caps → Option α) (hne : ds ≠ []) (hp : ∀ c ∈ ds, p c = true)
+    (hrest : ∀ c, rest.head? = some c → p c = false)
+    (hk : ∀ d more caps', p d = true → k (d :: more) caps' = none) :
+    m (cap b (plus p)) (ds ++ rest) caps k = k rest ((b, ds) :: caps.filter (·.1 != b)) := by
+  cases ds with
+  | nil => exact absurd rfl hne
+  | cons d ds' =>
+    have hp' : ∀ c ∈ ds', p c = true := fun c hc => hp c (List.mem_cons_of_mem _ hc)
+    have htw := takeWhile_append_run p ds' rest hp' hrest
+    rw [m_cap, plus, m_seq, List.cons_append, m_cls_cons, hp d (by simp), if_pos rfl]
+    rw [m_star_exact]
+    · rw [htw, List.drop_left]
+      simp only [List.length_cons, List.length_append]
+      have : ds'.length + rest.length + 1 - rest.length = ds'.length + 1 := by omega
+      rw [this, List.take_succ_cons, List.take_left]
+    · intro j hj
+      rw [htw] at hj
+      rw [List.drop_append_of_le_length (by omega), List.drop_eq_getElem_cons hj]
+      exact hk _ _ _ (hp' _ (List.getElem_mem hj))
+
+theorem startsWith_0x_false (ds rest : Str) (hne : ds ≠ []) (hd : ∀ c ∈ ds, Py.isDigit c = true)
+    (hx : ∀ c, rest.head? = some c → c ≠ 'x') : Py.startsWith (ds ++ rest) "0x".toList = false := by
+  have e : "0x".toList = ['0', 'x'] := by simp only [strLitToList]
+  rw [e]
+  match ds, hne, hd with
+  | [d], _, _ =>
+    cases rest with
+    | nil => simp [Py.startsWith]
+    | cons c r => simp [Py.startsWith, hx c rfl]
+  | d :: d' :: r, _, hd =>
+    have : d' ≠ 'x' := by
+      intro h; have := hd d' (by simp); rw [h] at this; revert this; decide
+    simp [Py.startsWith, this]
+
+/-- `(0x)?([0-9a-fA-F]+)` on a decimal run followed by a non-hex character other than `x` -/
+theorem m_reNum_exact {α} (a b : Nat) (ds rest : Str) (caps : Caps) (k : Str → Caps → Option α)
+    (hne : ds ≠ []) (hd : ∀ c ∈ ds, Py.isDigit c = true)
+    (hrest : ∀ c, rest.head? = some c → isHex c = false ∧ c ≠ 'x')
+    (hk : ∀ d more caps', isHex d = true → k (d :: more) caps' = none) :
+    m (reNum a b) (ds ++ rest) caps k = k rest ((b, ds) :: caps.filter (·.1 != b)) := by
+  rw [reNum, m_seq, m_opt, m_cap,
+    m_lit_none _ _ _ _ (startsWith_0x_false ds rest hne hd (fun c hc => (hrest c hc).2)), Option.none_or]
+  exact m_plus_cap_exact b isHex ds rest caps k hne (fun c hc => isDigit_isHex (hd c hc))
+    (fun c hc => (hrest c hc).1) hk
+
+
+theorem isHex_iff (c : Char) : isHex c = true ↔
+    (48 ≤ c.toNat ∧ c.toNat ≤ 57) ∨ (97 ≤ c.toNat ∧ c.toNat ≤ 102) ∨ (65 ≤ c.toNat ∧ c.toNat ≤ 70) := by
+  simp [isHex, Py.isDigit, char_le_iff, or_assoc]
+
+theorem isHex_not_space {c : Char} (h : isHex c = true) : Py.isSpace c = false := by
+  rw [isHex_iff] at h
+  have : ¬ c = ' ' := by rw [char_eq_iff]; show ¬ c.toNat = 32; omega
+  simp [Py.isSpace, this]; omega
+
+theorem isHex_ne {c d : Char} (h : isHex c = true) (hd : isHex d = false) : c ≠ d := by
+  intro e; subst e; simp [h] at hd
+
+theorem head?_append_mem {ds rest : Str} {c : Char} (hne : ds ≠ []) (h : (ds ++ rest).head? = some c) : c ∈ ds := by
+  cases ds with
+  | nil => exact absurd rfl hne
+  | cons d r => simp at h; simp [h]
+
+/-- `\s*(0x)?([0-9a-fA-F]+)\s*` on a decimal run followed by a character that is neither hex, `x`
+    nor white space, when the continuation cannot start with a hex digit -/
+theorem m_ws_num_ws {α} (a b : Nat) (ds rest : Str) (caps : Caps) (k : Str → Caps → Option α)
+    (hne : ds ≠ []) (hd : ∀ c ∈ ds, Py.isDigit c = true)
+    (hrest : ∀ c, rest.head? = some c → isHex c = false ∧ c ≠ 'x' ∧ Py.isSpace c = false)
+    (hk : ∀ d more caps', isHex d = true → k (d :: more) caps' = none) :
+    m reWs (ds ++ rest) caps (fun r c => m (reNum a b) r c (fun r c => m reWs r c k)) =
+      k rest ((b, ds) :: caps.filter (·.1 != b)) := by
+  rw [reWs, m_star_skip _ _ _ _ (fun c hc => isDigit_not_space (hd c (head?_append_mem hne hc)))]
+  rw [m_reNum_exact a b ds rest caps _ hne hd (fun c hc => ⟨(hrest c hc).1, (hrest c hc).2.1⟩)]
+  · exact m_star_skip _ _ _ _ (fun c hc => (hrest c hc).2.2)
+  · intro d more caps' hdx
+    rw [m_star_skip _ _ _ _ (fun c hc => by
+      simp only [List.head?_cons, Option.some.injEq] at hc; subst hc; exact isHex_not_space hdx)]
+    exact hk d more caps' hdx
+
+/-- the regular expressions after the prefix group -/
+def tail3 : Re :=
+  .seq (Re.lit "rgb(".toList) (.seq reOpen (.seq reWs (.seq (reNum 2 3) (.seq reWs (.seq reComma
+  (.seq reWs (.seq (reNum 4 5) (.seq reWs (.seq reComma (.seq reWs (.seq (reNum 6 7) (.seq reWs (.seq reClose
+  (.seq (Re.lit ")".toList) .eos))))))))))))))
+def tail1 : Re :=
+  .seq (Re.lit "rgb(".toList) (.seq reOpen (.seq reWs (.seq (reNum 2 3) (.seq reWs (.seq reClose
+  (.seq (Re.lit ")".toList) .eos))))))
+def tailC : Re :=
+  .seq (Re.lit "colo".toList) (.seq (.opt (.cls (· == 'u'))) (.seq (Re.lit "r256(".toList)
+  (.seq reOpen (.seq reWs (.seq (reNum 2 3) (.seq reWs (.seq reClose (.seq (Re.lit ")".toList) .eos))))))))
+
+theorem reRgb3_eq : reRgb3 = .seq rePrefix tail3 := rfl
+theorem reRgb1_eq : reRgb1 = .seq rePrefix tail1 := rfl
+theorem reColor_eq : reColor = .seq rePrefix tailC := rfl
+
+def k0 : Str → Caps → Option Caps := fun _ caps => some caps
+
+/-- the closing part `[\)\]]?\)$` on `")"` -/
+theorem m_close {α} (caps : Caps) (k : Str → Caps → Option α) :
+    m reClose [')'] caps (fun r c => m (lit ")".toList) r c (fun r c => m eos r c k)) = k [] caps := by
+  have e : ")".toList = [')'] := by simp only [strLitToList]
+  simp [reClose, m_opt, m_cls_cons, m_cls_nil, e, lit, m_seq, m_eps, m_eos]
+
+theorem hex_digit_facts {d : Char} (h : isHex d = true) :
+    (d == ',') = false ∧ (d == ')') = false ∧ (d == ']') = false ∧ (d == '[') = false ∧ (d == '(') = false := by
+  rw [isHex_iff] at h
+  simp only [beq_eq_false_iff_ne, ne_eq, char_eq_iff]
+  refine ⟨?_, ?_, ?_, ?_, ?_⟩ <;> (intro e; rw [e] at h; revert h; decide)
+
+theorem m_tail3 (R G B : Str) (caps : Caps)
+    (hR : R ≠ [] ∧ ∀ c ∈ R, Py.isDigit c = true) (hG : G ≠ [] ∧ ∀ c ∈ G, Py.isDigit c = true)
+    (hB : B ≠ [] ∧ ∀ c ∈ B, Py.isDigit c = true) :
+    m tail3 ("rgb(".toList ++ (R ++ ',' :: (G ++ ',' :: (B ++ [')'])))) caps k0 =
+      some ((7, B) :: (((5, G) :: (((3, R) :: caps.filter (·.1 != 3)).filter (·.1 != 5))).filter (·.1 != 7))) := by
+  have comma : ∀ (s : Str) c, (',' :: s).head? = some c → isHex c = false ∧ c ≠ 'x' ∧ Py.isSpace c = false := by
+    intro s c hc; simp only [List.head?_cons, Option.some.injEq] at hc; subst hc; decide
+  have paren : ∀ c, [')'].head? = some c → isHex c = false ∧ c ≠ 'x' ∧ Py.isSpace c = false := by
+    intro c hc; simp only [List.head?_cons, Option.some.injEq] at hc; subst hc; decide
+  simp only [tail3, m_seq]
+  rw [m_lit_append]
+  rw [reOpen, m_opt_cls_skip _ _ _ _ (fun c hc => by
+    have := hR.2 c (head?_append_mem hR.1 hc)
+    have := hex_digit_facts (isDigit_isHex this)
+    simp [this])]
+  rw [m_ws_num_ws 2 3 R _ _ _ hR.1 hR.2 (comma _) (fun d more caps' hd => by
+    rw [reComma, m_cls_cons, (hex_digit_facts hd).1]; rfl)]
+  rw [reComma, m_cls_cons, if_pos (by decide)]
+  rw [m_ws_num_ws 4 5 G _ _ _ hG.1 hG.2 (comma _) (fun d more caps' hd => by
+    rw [m_cls_cons, (hex_digit_facts hd).1]; rfl)]
+  rw [m_cls_cons, if_pos (by decide)]
+  rw [m_ws_num_ws 6 7 B _ _ _ hB.1 hB.2 paren (fun d more caps' hd => by
+    have f := hex_digit_facts hd
+    rw [reClose, m_opt_cls_skip _ _ _ _ (fun c hc => by
+      simp only [List.head?_cons, Option.some.injEq] at hc; subst hc; simp [f])]
+    have e : ")".toList = [')'] := by simp only [strLitToList]
+    simp [e, lit, m_seq, m_cls_cons, f])]
+  rw [m_close]; rfl
+
+
+/-- continuation that cannot start with one of the prefix letters -/
+def NoPfxStart {α} (k : Str → Caps → Option α) : Prop :=
+  ∀ c rest caps, c = 'f' ∨ c = 'b' ∨ c = 'u' ∨ c = 'd' → k (c :: rest) caps = none
+
+theorem take_len_sub (p s : Str) : (p ++ s).take ((p ++ s).length - s.length) = p := by
+  simp
+
+theorem m_rePrefix_none {α} (s : Str) (caps : Caps) (k : Str → Caps → Option α)
+    (hs : ∀ c, s.head? = some c → c ≠ 'f' ∧ c ≠ 'b' ∧ c ≠ 'u' ∧ c ≠ 'd') :
+    m rePrefix s caps k = k s ((1, []) :: caps.filter (·.1 != 1)) := by
+  have e1 : "fg_".toList = ['f','g','_'] := by simp only [strLitToList]
+  have e2 : "bg_".toList = ['b','g','_'] := by simp only [strLitToList]
+  have e3 : "ul_".toList = ['u','l','_'] := by simp only [strLitToList]
+  have e4 : "dul_".toList = ['d','u','l','_'] := by simp only [strLitToList]
+  cases s with
+  | nil => simp [rePrefix, m_cap, m_alt, m_opt, e1, e2, e3, e4, lit, m_seq, m_cls_nil]
+  | cons c rest =>
+    have hc := hs c rfl
+    simp [rePrefix, m_cap, m_alt, m_opt, e1, e2, e3, e4, lit, m_seq, m_cls_cons, hc]
+
+theorem m_rePrefix_fg {α} (s : Str) (caps : Caps) (k : Str → Caps → Option α) (hk : NoPfxStart k) :
+    m rePrefix ("fg_".toList ++ s) caps k = k s ((1, "fg_".toList) :: caps.filter (·.1 != 1)) := by
+  have e1 : "fg_".toList = ['f','g','_'] := by simp only [strLitToList]
+  have e2 : "bg_".toList = ['b','g','_'] := by simp only [strLitToList]
+  have e3 : "ul_".toList = ['u','l','_'] := by simp only [strLitToList]
+  have e4 : "dul_".toList = ['d','u','l','_'] := by simp only [strLitToList]
+  have h := fun caps => hk 'f' ('g' :: '_' :: s) caps (by simp)
+  have e : s.length + 1+ 1+ 1 - s.length = 3 := by omega
+  simp [rePrefix, m_cap, m_alt, m_opt, e1, e2, e3, e4, lit, m_seq, m_cls_cons, m_eps, h, e]
+
+theorem m_rePrefix_bg {α} (s : Str) (caps : Caps) (k : Str → Caps → Option α) (hk : NoPfxStart k) :
+    m rePrefix ("bg_".toList ++ s) caps k = k s ((1, "bg_".toList) :: caps.filter (·.1 != 1)) := by
+  have e1 : "fg_".toList = ['f','g','_'] := by simp only [strLitToList]
+  have e2 : "bg_".toList = ['b','g','_'] := by simp only [strLitToList]
+  have e3 : "ul_".toList = ['u','l','_'] := by simp only [strLitToList]
+  have e4 : "dul_".toList = ['d','u','l','_'] := by simp only [strLitToList]
+  have h := fun caps => hk 'b' ('g' :: '_' :: s) caps (by simp)
+  have e : s.length + 1+ 1+ 1 - s.length = 3 := by omega
+  simp [rePrefix, m_cap, m_alt, m_opt, e1, e2, e3, e4, lit, m_seq, m_cls_cons, m_eps, h, e]
+
+theorem m_rePrefix_ul {α} (s : Str) (caps : Caps) (k : Str → Caps → Option α) (hk : NoPfxStart k) :
+    m rePrefix ("ul_".toList ++ s) caps k = k s ((1, "ul_".toList) :: caps.filter (·.1 != 1)) := by
+  have e1 : "fg_".toList = ['f','g','_'] := by simp only [strLitToList]
+  have e2 : "bg_".toList = ['b','g','_'] := by simp only [strLitToList]
+  have e3 : "ul_".toList = ['u','l','_'] := by simp only [strLitToList]
+  have e4 : "dul_".toList = ['d','u','l','_'] := by simp only [strLitToList]
+  have h := fun caps => hk 'u' ('l' :: '_' :: s) caps (by simp)
+  have e : s.length + 1+ 1+ 1 - s.length = 3 := by omega
+  simp [rePrefix, m_cap, m_alt, m_opt, e1, e2, e3, e4, lit, m_seq, m_cls_cons, m_eps, h, e]
+
+theorem m_rePrefix_dul {α} (s : Str) (caps : Caps) (k : Str → Caps → Option α) (hk : NoPfxStart k) :
+    m rePrefix ("dul_".toList ++ s) caps k = k s ((1, "dul_".toList) :: caps.filter (·.1 != 1)) := by
+  have e1 : "fg_".toList = ['f','g','_'] := by simp only [strLitToList]
+  have e2 : "bg_".toList = ['b','g','_'] := by simp only [strLitToList]
+  have e3 : "ul_".toList = ['u','l','_'] := by simp only [strLitToList]
+  have e4 : "dul_".toList = ['d','u','l','_'] := by simp only [strLitToList]
+  have h := fun caps => hk 'd' ('u' :: 'l' :: '_' :: s) caps (by simp)
+  have e : s.length + 1+ 1+ 1+ 1 - s.length = 4 := by omega
+  simp [rePrefix, m_cap, m_alt, m_opt, e1, e2, e3, e4, lit, m_seq, m_cls_cons, m_eps, h, e]
+
+
+/-- the spellings of the component prefix -/
+def prefixes : List Str := [[], "fg_".toList, "bg_".toList, "ul_".toList, "dul_".toList]
+
+theorem m_rePrefix_gen {α} (pfx : Str) (hp : pfx ∈ prefixes) (s : Str) (caps : Caps)
+    (k : Str → Caps → Option α) (hs : ∀ c, s.head? = some c → c ≠ 'f' ∧ c ≠ 'b' ∧ c ≠ 'u' ∧ c ≠ 'd')
+    (hk : NoPfxStart k) :
+    m rePrefix (pfx ++ s) caps k = k s ((1, pfx) :: caps.filter (·.1 != 1)) := by
+  simp only [prefixes, List.mem_cons, List.not_mem_nil, or_false] at hp
+  rcases hp with rfl | rfl | rfl | rfl | rfl
+  · exact m_rePrefix_none s caps k hs
+  · exact m_rePrefix_fg s caps k hk
+  · exact m_rePrefix_bg s caps k hk
+  · exact m_rePrefix_ul s caps k hk
+  · exact m_rePrefix_dul s caps k hk
+
+theorem noPfxStart_lit {α} (w : Str) (c0 : Char) (X : Re) (k : Str → Caps → Option α)
+    (hw : w.head? = some c0) (hc0 : c0 ≠ 'f' ∧ c0 ≠ 'b' ∧ c0 ≠ 'u' ∧ c0 ≠ 'd') :
+    NoPfxStart (fun r c => m (.seq (lit w) X) r c k) := by
+  intro c rest caps hc
+  cases w with
+  | nil => simp at hw
+  | cons w0 w' =>
+    simp only [List.head?_cons, Option.some.injEq] at hw
+    subst hw
+    have : (c == w0) = false := by
+      rcases hc with rfl | rfl | rfl | rfl <;> simp [Ne.symm hc0.1, Ne.symm hc0.2.1, Ne.symm hc0.2.2.1, Ne.symm hc0.2.2.2]
+    show m (.seq (lit (w0 :: w')) X) (c :: rest) caps k = none
+    simp [m_seq, lit, m_cls_cons, this]
+
+theorem rgbLit_head : "rgb(".toList.head? = some 'r' := by simp only [strLitToList]; rfl
+theorem coloLit_head : "colo".toList.head? = some 'c' := by simp only [strLitToList]; rfl
+
+theorem noPfx_tail3 : NoPfxStart (fun r c => m tail3 r c k0) :=
+  noPfxStart_lit _ 'r' _ k0 rgbLit_head (by decide)
+theorem noPfx_tail1 : NoPfxStart (fun r c => m tail1 r c k0) :=
+  noPfxStart_lit _ 'r' _ k0 rgbLit_head (by decide)
+theorem noPfx_tailC : NoPfxStart (fun r c => m tailC r c k0) :=
+  noPfxStart_lit _ 'c' _ k0 coloLit_head (by decide)
+
+theorem head_rgb (X : Str) : ∀ c, ("rgb(".toList ++ X).head? = some c → c ≠ 'f' ∧ c ≠ 'b' ∧ c ≠ 'u' ∧ c ≠ 'd' := by
+  intro c hc
+  have e : "rgb(".toList = ['r','g','b','('] := by simp only [strLitToList]
+  rw [e] at hc; simp at hc; subst hc; decide
+theorem head_colo (X : Str) : ∀ c, ("colo".toList ++ X).head? = some c → c ≠ 'f' ∧ c ≠ 'b' ∧ c ≠ 'u' ∧ c ≠ 'd' := by
+  intro c hc
+  have e : "colo".toList = ['c','o','l','o'] := by simp only [strLitToList]
+  rw [e] at hc; simp at hc; subst hc; decide
+
+/-- `^(prefix)rgb\(N,N,N\)$` on canonical decimal arguments -/
+theorem match_rgb3 (pfx : Str) (hp : pfx ∈ prefixes) (R G B : Str)
+    (hR : R ≠ [] ∧ ∀ c ∈ R, Py.isDigit c = true) (hG : G ≠ [] ∧ ∀ c ∈ G, Py.isDigit c = true)
+    (hB : B ≠ [] ∧ ∀ c ∈ B, Py.isDigit c = true) :
+    matchStart reRgb3 (pfx ++ ("rgb(".toList ++ (R ++ ',' :: (G ++ ',' :: (B ++ [')']))))) =
+      some [(7, B), (5, G), (3, R), (1, pfx)] := by
+  show m reRgb3 _ [] k0 = _
+  rw [reRgb3_eq, m_seq, m_rePrefix_gen pfx hp _ _ _ (head_rgb _) noPfx_tail3, m_tail3 R G B _ hR hG hB]
+  rfl
+
+
+theorem paren_head : ∀ c, [')'].head? = some c → isHex c = false ∧ c ≠ 'x' ∧ Py.isSpace c = false := by
+  intro c hc; simp only [List.head?_cons, Option.some.injEq] at hc; subst hc; decide
+
+theorem open_skip_digits {α} (V rest : Str) (caps : Caps) (k : Str → Caps → Option α)
+    (hV : V ≠ [] ∧ ∀ c ∈ V, Py.isDigit c = true) : m reOpen (V ++ rest) caps k = k (V ++ rest) caps := by
+  rw [reOpen, m_opt_cls_skip _ _ _ _ (fun c hc => by
+    have := hV.2 c (head?_append_mem hV.1 hc)
+    have := hex_digit_facts (isDigit_isHex this)
+    simp [this])]
+
+/-- the continuation `[\)\]]?\)$` cannot start with a hex digit -/
+theorem close_none_hex {α} (d : Char) (more : Str) (caps : Caps) (k : Str → Caps → Option α)
+    (hd : isHex d = true) :
+    m reClose (d :: more) caps (fun r c => m (lit ")".toList) r c (fun r c => m eos r c k)) = none := by
+  have f := hex_digit_facts hd
+  rw [reClose, m_opt_cls_skip _ _ _ _ (fun c hc => by
+    simp only [List.head?_cons, Option.some.injEq] at hc; subst hc; simp [f])]
+  have e : ")".toList = [')'] := by simp only [strLitToList]
+  simp [e, lit, m_seq, m_cls_cons, f]
+
+/-- `\([\[\()]?\s*N\s*[\)\]]?\)$` on one canonical decimal argument -/
+theorem m_arg1 (V : Str) (caps : Caps) (hV : V ≠ [] ∧ ∀ c ∈ V, Py.isDigit c = true) :
+    m reOpen (V ++ [')']) caps (fun r c => m reWs r c (fun r c => m (reNum 2 3) r c (fun r c => m reWs r c
+      (fun r c => m reClose r c (fun r c => m (lit ")".toList) r c (fun r c => m eos r c k0)))))) =
+      some ((3, V) :: caps.filter (·.1 != 3)) := by
+  rw [open_skip_digits V _ _ _ hV]
+  rw [m_ws_num_ws 2 3 V _ _ _ hV.1 hV.2 paren_head (fun d more caps' hd => close_none_hex d more caps' k0 hd)]
+  rw [m_close]; rfl
+
+theorem m_tail1 (V : Str) (caps : Caps) (hV : V ≠ [] ∧ ∀ c ∈ V, Py.isDigit c = true) :
+    m tail1 ("rgb(".toList ++ (V ++ [')'])) caps k0 = some ((3, V) :: caps.filter (·.1 != 3)) := by
+  simp only [tail1, m_seq]
+  rw [m_lit_append]
+  exact m_arg1 V caps hV
+
+/-- the three-value pattern does not match a one-value string -/
+theorem m_tail3_single (V : Str) (caps : Caps) (hV : V ≠ [] ∧ ∀ c ∈ V, Py.isDigit c = true) :
+    m tail3 ("rgb(".toList ++ (V ++ [')'])) caps k0 = none := by
+  simp only [tail3, m_seq]
+  rw [m_lit_append, open_skip_digits V _ _ _ hV]
+  rw [m_ws_num_ws 2 3 V _ _ _ hV.1 hV.2 paren_head (fun d more caps' hd => by
+    rw [reComma, m_cls_cons, (hex_digit_facts hd).1]; rfl)]
+  rw [reComma, m_cls_cons]; rfl
+
+theorem m_tailC (u : Bool) (V : Str) (caps : Caps) (hV : V ≠ [] ∧ ∀ c ∈ V, Py.isDigit c = true) :
+    m tailC ("colo".toList ++ ((if u then ['u'] else []) ++ ("r256(".toList ++ (V ++ [')'])))) caps k0 =
+      some ((3, V) :: caps.filter (·.1 != 3)) := by
+  have e : "r256(".toList = ['r','2','5','6','('] := by simp only [strLitToList]
+  simp only [tailC, m_seq]
+  rw [m_lit_append]
+  cases u with
+  | false =>
+    rw [if_neg (by simp), List.nil_append, m_opt_cls_skip _ _ _ _ (fun c hc => by
+      rw [e] at hc; simp at hc; subst hc; decide)]
+    rw [m_lit_append]
+    exact m_arg1 V caps hV
+  | true =>
+    rw [if_pos rfl, m_opt, List.singleton_append, m_cls_cons, if_pos (by decide), m_lit_append, m_arg1 V caps hV]
+    rfl
+
+theorem m_tail_rgb_on_colo {α} (X : Re) (Y : Str) (caps : Caps) (k : Str → Caps → Option α) :
+    m (.seq (lit "rgb(".toList) X) ("colo".toList ++ Y) caps k = none := by
+  have e1 : "rgb(".toList = ['r','g','b','('] := by simp only [strLitToList]
+  have e2 : "colo".toList = ['c','o','l','o'] := by simp only [strLitToList]
+  simp [e1, e2, m_seq, lit, m_cls_cons]
+
+theorem match_rgb3_single (V : Str) (hV : V ≠ [] ∧ ∀ c ∈ V, Py.isDigit c = true) :
+    matchStart reRgb3 ("rgb(".toList ++ (V ++ [')'])) = none := by
+  show m reRgb3 _ [] k0 = _
+  rw [reRgb3_eq, m_seq, m_rePrefix_none _ _ _ (head_rgb _)]
+  exact m_tail3_single V _ hV
+
+theorem match_rgb1 (V : Str) (hV : V ≠ [] ∧ ∀ c ∈ V, Py.isDigit c = true) :
+    matchStart reRgb1 ("rgb(".toList ++ (V ++ [')'])) = some [(3, V), (1, [])] := by
+  show m reRgb1 _ [] k0 = _
+  rw [reRgb1_eq, m_seq, m_rePrefix_none _ _ _ (head_rgb _), m_tail1 V _ hV]
+  rfl
+
+theorem match_rgb3_colo (pfx : Str) (hp : pfx ∈ prefixes) (Y : Str) :
+    matchStart reRgb3 (pfx ++ ("colo".toList ++ Y)) = none := by
+  show m reRgb3 _ [] k0 = _
+  rw [reRgb3_eq, m_seq, m_rePrefix_gen pfx hp _ _ _ (head_colo _) noPfx_tail3]
+  exact m_tail_rgb_on_colo _ _ _ _
+
+theorem match_rgb1_colo (pfx : Str) (hp : pfx ∈ prefixes) (Y : Str) :
+    matchStart reRgb1 (pfx ++ ("colo".toList ++ Y)) = none := by
+  show m reRgb1 _ [] k0 = _
+  rw [reRgb1_eq, m_seq, m_rePrefix_gen pfx hp _ _ _ (head_colo _) noPfx_tail1]
+  exact m_tail_rgb_on_colo _ _ _ _
+
+theorem match_color (pfx : Str) (hp : pfx ∈ prefixes) (u : Bool) (V : Str)
+    (hV : V ≠ [] ∧ ∀ c ∈ V, Py.isDigit c = true) :
+    matchStart reColor (pfx ++ ("colo".toList ++ ((if u then ['u'] else []) ++ ("r256(".toList ++ (V ++ [')']))))) =
+      some [(3, V), (1, pfx)] := by
+  show m reColor _ [] k0 = _
+  rw [reColor_eq, m_seq, m_rePrefix_gen pfx hp _ _ _ (head_colo _) noPfx_tailC, m_tailC u V _ hV]
+  rfl
+
+
+/-! ## `_parse_rgb_string` on the canonical spellings -/
+
+theorem numVal_digits {V : Str} (hV : ∀ c ∈ V, Py.isDigit c = true) : numVal V false = some (Py.digitsVal V) := by
+  have : V.all Py.isDigit = true := List.all_eq_true.2 hV
+  simp [numVal, this]
+
+theorem natStr_ok (n : Nat) : Py.natStr n ≠ [] ∧ ∀ c ∈ Py.natStr n, Py.isDigit c = true :=
+  ⟨natStr_ne_nil n, natStr_all n⟩
+
+theorem parse_rgb3 (pfx : Str) (hp : pfx ∈ prefixes) (r g b : Nat) :
+    parseRgbString (pfx ++ ("rgb(".toList ++ (Py.natStr r ++ ',' :: (Py.natStr g ++ ',' :: (Py.natStr b ++ [')']))))) =
+      some (.ok (colorSettings (component (some pfx)) true [min 255 r, min 255 g, min 255 b])) := by
+  unfold parseRgbString
+  rw [match_rgb3 pfx hp _ _ _ (natStr_ok r) (natStr_ok g) (natStr_ok b)]
+  simp [Re.group, numVal_digits (natStr_all _), digitsVal_natStr]
+
+theorem parse_rgb1 (v : Nat) :
+    parseRgbString ("rgb(".toList ++ (Py.natStr v ++ [')'])) =
+      some (.ok (colorSettings 0 true [(v / 65536) % 256, (v / 256) % 256, v % 256])) := by
+  unfold parseRgbString
+  rw [match_rgb3_single _ (natStr_ok v), match_rgb1 _ (natStr_ok v)]
+  simp [Re.group, numVal_digits (natStr_all _), digitsVal_natStr, component]
+
+theorem parse_color (pfx : Str) (hp : pfx ∈ prefixes) (u : Bool) (n : Nat) :
+    parseRgbString (pfx ++ ("colo".toList ++ ((if u then ['u'] else []) ++ ("r256(".toList ++ (Py.natStr n ++ [')']))))) =
+      some (.ok (colorSettings (component (some pfx)) false [n])) := by
+  unfold parseRgbString
+  rw [match_rgb3_colo pfx hp, match_rgb1_colo pfx hp, match_color pfx hp u _ (natStr_ok n)]
+  simp [Re.group, numVal_digits (natStr_all _), digitsVal_natStr]
+
+theorem component_vals : component (some []) = 0 ∧ component (some "fg_".toList) = 0 ∧
+    component (some "bg_".toList) = 1 ∧ component (some "ul_".toList) = 2 ∧ component (some "dul_".toList) = 3 := by
+  simp only [strLitToList]; decide
+
+/-- a directive containing `(` is not an AnsiFormat name; if `_parse_rgb_string` accepts it, its
+    settings are the result -/
+theorem scrub_str_rgb {s : Str} {ts : List Str} (hs : ';' ∉ s) (hp : '(' ∈ s) (hb : s.head? ≠ some '[')
+    (h : parseRgbString s = some (.ok ts)) : scrub (.str s) = .ok ts := by
+  have hne : s ≠ [] := by intro e; rw [e] at hp; simp at hp
+  have hl : lookupFormat (normName s) = none := by
+    apply lookup_none_of_char (c := '(')
+    · rw [normName_eq_map]; exact List.mem_map.2 ⟨'(', hp, by decide⟩
+    · decide
+  rw [scrub_str_eq, scrubString_single hne hb hs]
+  simp [scrubDirective, hl, h, bind, Except.bind, pure, Except.pure, combineInts_settings]
 
 end ScrubL
